@@ -235,6 +235,13 @@ def f_rotmap(case):
     else:
         a.rotate_by(G, m); b.transform_by(M, m)
     C.expect_list(Bk.read_list(b), Bk.read_list(a), 'transform_by(rotation map) vs rotate_by', 'rotmap-action')
+    if case.get('gen2'):
+        # sequence: the returned map is the caller's object - rotate it in place by a second generator, then ask for the map of G again
+        g2l, g2k = ref.parse(case['gen2'])
+        M.rotate_by(Bk.pauli(g2l, g2k))
+        C.expect_list(Bk.read_list(M), ref.rotate_rule(rc.L, rc.K, g2l, g2k), 'clifford_rotation_map(%s) rotated in place by %s' % (case['gen'], case['gen2']), 'rotmap-then-rotate')
+        M2 = sm.clifford_rotation_map(Bk.pauli(gl, gk))
+        C.expect_list(Bk.read_list(M2), (rc.L, rc.K), 'clifford_rotation_map(%s) requested again after the first result was rotated in place' % case['gen'], 'rotmap-second-call')
     GL = ref.embed_letters(gl, case['qubits'], N)
     return {'nt': _nt(case, L, K, GL, gk), 'labels': ['N=%d' % N]}
 
@@ -242,7 +249,7 @@ def f_rotmap(case):
 def st_rotmap(be, hiN):
     return st.integers(1, hiN).flatmap(lambda N: st.integers(1, N).flatmap(lambda n: st.fixed_dictionaries(
         {'be': st.just(be), 'N': st.just(N), 'qubits': gen.st_subset(N, n), 'usemask': st.booleans(), 'gen': gen.st_herm(n),
-         'ops': st.lists(gen.st_pauli(N), min_size=1, max_size=5)})))
+         'ops': st.lists(gen.st_pauli(N), min_size=1, max_size=5), 'gen2': st.none() | gen.st_herm(n)})))
 
 
 FACETS = [
